@@ -493,8 +493,8 @@ std::string gen_key(sim::Rng& r, const GenOpts& o) {
     return s;
   }
   if (m == 3 || m == 4) {   // families of keys sharing prefix and suffix, differing in the middle (lengths 9..40)
-    static const int L[] = {9, 12, 13, 14, 15, 16, 17, 24, 33, 40};
-    size_t len = (size_t)L[r.below(10)];
+    static const int L[] = {9, 12, 13, 14, 15, 16, 17, 24, 33, 40, 65, 70, 97, 130, 200};
+    size_t len = o.family_len > 8 ? (size_t)o.family_len : (size_t)L[r.below(o.big_strings ? 15 : 10)];
     std::string s = "user" + std::string(len - 4 - 4, '0') + "_end";
     s[4 + r.below(len - 8)] = (char)('1' + r.below((uint64_t)(o.key_alphabet < 9 ? o.key_alphabet : 9)));
     return s;
